@@ -528,6 +528,9 @@ func (pe *PolicyEngine) deletePod(p *corev1.Pod) error {
 		podToDelete = podObj
 	}
 
+	if podToDelete == nil { // pod is not present: nothing to delete
+		return nil
+	}
 	delete(pe.podsMap, podName)
 	pe.updatePodOwnersToRepresentativePodMapIfRequired(podToDelete)
 	return nil
@@ -586,7 +589,7 @@ func (pe *PolicyEngine) deleteAdminNetworkPolicy(anp *apisv1a.AdminNetworkPolicy
 }
 
 func (pe *PolicyEngine) deleteBaselineAdminNetworkPolicy(banp *apisv1a.BaselineAdminNetworkPolicy) error {
-	if pe.baselineAdminNetpol.Name == banp.Name { // if this is the banp used in pe delete it
+	if pe.baselineAdminNetpol != nil && pe.baselineAdminNetpol.Name == banp.Name { // if this is the banp used in pe delete it
 		// @TBD : should keep this if? no other banps are in the resources (illegal)
 		pe.baselineAdminNetpol = nil
 	}
